@@ -1267,6 +1267,15 @@ evutil_getaddrinfo_common_(const char *nodename, const char *servname,
 		/* If we're not allowed to do one, then say so. */
 		return EVUTIL_EAI_NONAME;
 	}
+	/* A literal address of the family that the hints exclude is not a
+	 * host name: there is nothing to ask the resolver. */
+	{
+		struct in_addr a4;
+		struct in6_addr a6;
+		if (1 == evutil_inet_pton(AF_INET, nodename, &a4) ||
+		    1 == evutil_inet_pton_scope(AF_INET6, nodename, &a6, &if_index))
+			return EVUTIL_EAI_NONAME;
+	}
 	*portnum = port;
 	return EVUTIL_EAI_NEED_RESOLVE;
 }
